@@ -113,61 +113,66 @@ pub struct Deviation {
     pub tokens: BTreeSet<String>,
 }
 
-/// diagnostic predicate over a deviating run: names the shape of the deviation.
-/// `explained`: the stale-snapshot prediction of the pure model reproduces the stored outcome.
-pub fn classify(
+/// number of places (fields, room, references, date, other rows) in which two outcomes differ
+fn distance(actual: &Out, serial: &Out, acked_dates: &[i64]) -> usize {
+    let mut d = actual.edges.symmetric_difference(&serial.edges).count();
+    match (actual.rows.get("R"), serial.rows.get("R")) {
+        (Some(a), Some(s)) => {
+            let names: BTreeSet<&String> = a.fields.keys().chain(s.fields.keys()).collect();
+            d += names.into_iter().filter(|n| a.fields.get(*n) != s.fields.get(*n)).count();
+            if a.room != s.room {
+                d += 1;
+            }
+            if a.copies != s.copies || a.entity != s.entity {
+                d += 1;
+            }
+        }
+        _ => d += 1,
+    }
+    if !mdate_ok(actual, serial, acked_dates) {
+        d += 1;
+    }
+    for (n, r) in &actual.rows {
+        if n != "R" && serial.rows.get(n) != Some(r) {
+            d += 1;
+        }
+    }
+    d
+}
+
+/// the shape of a deviation that the stale-snapshot prediction reproduces, relative to one of the
+/// closest serial outcomes; None when no shape predicate holds for that serial outcome
+fn shape(
     init: &Init,
     muts: &[Mut],
     schedule: &[Event],
     mr: &ModelRun,
     actual: &Out,
-    serial: &[(Vec<u8>, Out)],
-    acked_dates: &[i64],
-    explained: bool,
-) -> Deviation {
-    // the serial outcome closest to the stored one
-    let mut best: Option<(usize, &Vec<u8>, &Out, BTreeSet<String>)> = None;
-    for (order, out) in serial {
-        let t = serial_diff(actual, out, acked_dates);
-        let better = match &best {
-            None => true,
-            Some((n, _, _, _)) => t.len() < *n,
-        };
-        if better {
-            best = Some((t.len(), order, out, t));
-        }
-    }
-    let (nearest_order, nearest, tokens) = match best {
-        Some((_, o, out, t)) => (o.clone(), out.clone(), t),
-        None => {
-            return Deviation {
-                signature: "acknowledged-set-has-no-serial-order".into(),
-                nearest_order: vec![],
-                tokens: BTreeSet::new(),
-            }
-        }
-    };
-    let text: Vec<String> = tokens.iter().cloned().collect();
-    let unexplained = || format!("unexplained-outcome:{}", text.join("+"));
-    if !explained {
-        return Deviation { signature: unexplained(), nearest_order, tokens };
-    }
+    nearest: &Out,
+    tokens: &BTreeSet<String>,
+) -> Option<String> {
     let init_out = model_init(init);
     let pet_targets = actual.edges.iter().filter(|e| e.0 == "R" && e.1 == "pet").count();
     let r_actual = actual.rows.get("R");
     let r_near = nearest.rows.get("R");
-    // an inserted reference of mutation i that is visible now and was not there initially
-    let reference_kept = |m: &Mut| -> bool {
-        let e = match &m.refop {
-            Some(RefOp::AddFriend(t)) => ("R".to_string(), "friends".to_string(), friend_name(*t)),
-            Some(RefOp::SetPet(t)) => ("R".to_string(), "pet".to_string(), pet_name(*t)),
-            _ => return false,
-        };
-        actual.edges.contains(&e) && !init_out.edges.contains(&e)
+    let edge_of = |m: &Mut| -> Option<(String, String, String)> {
+        match &m.refop {
+            Some(RefOp::AddFriend(t)) => Some(("R".to_string(), "friends".to_string(), friend_name(*t))),
+            Some(RefOp::SetPet(t)) => Some(("R".to_string(), "pet".to_string(), pet_name(*t))),
+            _ => None,
+        }
     };
-    let signature = if pet_targets > 1 {
-        "mixed-state:single-reference-two-targets".to_string()
-    } else if tokens.contains("room") {
+    // an inserted reference of the mutation that is visible now and was not there initially
+    let reference_kept = |m: &Mut| -> bool {
+        match edge_of(m) {
+            Some(e) => actual.edges.contains(&e) && !init_out.edges.contains(&e),
+            None => false,
+        }
+    };
+    if pet_targets > 1 {
+        return Some("mixed-state:single-reference-two-targets".to_string());
+    }
+    if tokens.contains("room") {
         // a room move is not visible although the closest serial order shows it (or the reverse)
         let movers_kept = muts.iter().enumerate().any(|(i, m)| {
             mr.acks[i]
@@ -175,12 +180,13 @@ pub fn classify(
                 && r_actual.map(|r| r.room != m.room.map(room_name)).unwrap_or(false)
                 && reference_kept(m)
         });
-        if movers_kept {
+        return Some(if movers_kept {
             "mixed-state:room-move".to_string()
         } else {
             "lost-update:room-move-reverted".to_string()
-        }
-    } else if tokens.contains("field") {
+        });
+    }
+    if tokens.contains("field") {
         // victims: acknowledged mutations whose assignment is in the closest serial outcome but
         // not in the stored row
         let mut partial = false;
@@ -200,61 +206,100 @@ pub fn classify(
             }
         }
         if partial {
-            "mixed-state:field-lost-reference-kept".to_string()
-        } else {
-            // the first stale writer: an acknowledged mutation storing a row image although
-            // another acknowledged row image was stored between its read and its write
-            let writes = |i: usize| -> bool {
-                mr.acks[i] && mr.effects[i].as_ref().map(|e| e.node.is_some()).unwrap_or(false)
-            };
-            let pos = |p: Phase, i: usize| schedule.iter().position(|e| e.0 == p && e.1 as usize == i);
-            let mut culprit: Option<usize> = None;
-            for e in schedule {
-                if e.0 != Phase::W {
-                    continue;
-                }
-                let j = e.1 as usize;
-                if !writes(j) {
-                    continue;
-                }
-                let (rj, wj) = (pos(Phase::R, j).unwrap(), pos(Phase::W, j).unwrap());
-                let stale = (0..muts.len()).any(|i| {
-                    i != j && writes(i) && pos(Phase::W, i).map(|wi| rj < wi && wi < wj).unwrap_or(false)
-                });
-                if stale {
-                    culprit = Some(j);
-                    break;
-                }
+            return Some("mixed-state:field-lost-reference-kept".to_string());
+        }
+        // the first stale writer: an acknowledged mutation storing a row image although
+        // another acknowledged row image was stored between its read and its write
+        let writes =
+            |i: usize| -> bool { mr.acks[i] && mr.effects[i].as_ref().map(|e| e.node.is_some()).unwrap_or(false) };
+        let pos = |p: Phase, i: usize| schedule.iter().position(|e| e.0 == p && e.1 as usize == i);
+        for e in schedule {
+            if e.0 != Phase::W {
+                continue;
             }
-            match culprit {
-                Some(j) => format!("lost-update:{}", muts[j].writer_kind()),
-                None => format!("unclassified-stale-snapshot-outcome:{}", text.join("+")),
+            let j = e.1 as usize;
+            if !writes(j) {
+                continue;
+            }
+            let (rj, wj) = (pos(Phase::R, j).unwrap(), pos(Phase::W, j).unwrap());
+            let stale = (0..muts.len())
+                .any(|i| i != j && writes(i) && pos(Phase::W, i).map(|wi| rj < wi && wi < wj).unwrap_or(false));
+            if stale {
+                return Some(format!("lost-update:{}", muts[j].writer_kind()));
             }
         }
-    } else if tokens.iter().all(|t| t == "pet-reference" || t == "friend-reference") && !tokens.is_empty() {
+        return None;
+    }
+    if !tokens.is_empty() && tokens.iter().all(|t| t == "pet-reference" || t == "friend-reference") {
         // the row image is the one of the closest serial order, the references are not
         let skipped = muts.iter().enumerate().any(|(i, m)| {
-            let e = match &m.refop {
-                Some(RefOp::AddFriend(t)) => ("R".to_string(), "friends".to_string(), friend_name(*t)),
-                Some(RefOp::SetPet(t)) => ("R".to_string(), "pet".to_string(), pet_name(*t)),
-                _ => return false,
+            let e = match edge_of(m) {
+                Some(e) => e,
+                None => return false,
             };
             // the target was present when the mutation was read, so it decided to insert nothing
             let decided_nothing = mr.effects[i].as_ref().map(|x| x.ins.is_empty()).unwrap_or(false);
             mr.acks[i] && decided_nothing && !actual.edges.contains(&e) && nearest.edges.contains(&e)
         });
-        let survivor = actual.edges.iter().any(|e| e.0 == "R" && !nearest.edges.contains(e));
         if skipped {
-            "lost-update:reference-assignment-skipped".to_string()
-        } else if survivor {
-            "lost-update:reference-removal-missed".to_string()
-        } else {
-            format!("unclassified-stale-snapshot-outcome:{}", text.join("+"))
+            return Some("lost-update:reference-assignment-skipped".to_string());
         }
+        // a reference that a clear / replace written later should have removed
+        let survivor = actual.edges.iter().any(|e| e.0 == "R" && !nearest.edges.contains(e));
+        if survivor {
+            return Some("lost-update:reference-removal-missed".to_string());
+        }
+    }
+    None
+}
+
+/// diagnostic predicate over a deviating run: names the shape of the deviation.
+/// `explained`: the stale-snapshot prediction of the pure model reproduces the stored outcome.
+pub fn classify(
+    init: &Init,
+    muts: &[Mut],
+    schedule: &[Event],
+    mr: &ModelRun,
+    actual: &Out,
+    serial: &[(Vec<u8>, Out)],
+    acked_dates: &[i64],
+    explained: bool,
+) -> Deviation {
+    if serial.is_empty() {
+        return Deviation {
+            signature: "acknowledged-set-has-no-serial-order".into(),
+            nearest_order: vec![],
+            tokens: BTreeSet::new(),
+        };
+    }
+    // the serial outcomes closest to the stored one, in permutation order
+    let min = serial.iter().map(|(_, out)| distance(actual, out, acked_dates)).min().unwrap();
+    let closest: Vec<&(Vec<u8>, Out)> =
+        serial.iter().filter(|(_, out)| distance(actual, out, acked_dates) == min).collect();
+    let first = closest[0];
+    let first_tokens = serial_diff(actual, &first.1, acked_dates);
+    let text = |t: &BTreeSet<String>| t.iter().cloned().collect::<Vec<_>>().join("+");
+    if !explained {
+        return Deviation {
+            signature: format!("unexplained-outcome:{}", text(&first_tokens)),
+            nearest_order: first.0.clone(),
+            tokens: first_tokens,
+        };
+    }
+    for (order, out) in closest.iter().map(|c| (&c.0, &c.1)) {
+        let tokens = serial_diff(actual, out, acked_dates);
+        if let Some(signature) = shape(init, muts, schedule, mr, actual, out, &tokens) {
+            return Deviation { signature, nearest_order: order.clone(), tokens };
+        }
+    }
+    // three mutations can combine two of the shapes above so that no single predicate holds
+    // against any closest order; two mutations cannot, so that stays a signature of its own
+    let signature = if muts.len() >= 3 {
+        "lost-update:combined-shapes".to_string()
     } else {
-        format!("unclassified-stale-snapshot-outcome:{}", text.join("+"))
+        format!("unclassified-stale-snapshot-outcome:{}", text(&first_tokens))
     };
-    Deviation { signature, nearest_order, tokens }
+    Deviation { signature, nearest_order: first.0.clone(), tokens: first_tokens }
 }
 
 pub struct SetStats {
